@@ -124,6 +124,17 @@ func rsRound(lg *tracelog.Log, rng *rand.Rand, cs c07Case, length, g int, withWo
 		}
 		ev["dwords"], ev["pwords"], ev["prows"] = dw, pw, prows
 	}
+	// every fifth round with a spare parity shard: that spare (available, but beyond the shards the decoder needs)
+	// holds garbage.  Whatever the coder makes of it, a nil error still means the originals and the supplied shards
+	// stay as they were; the capability clauses are waived for these rounds (the premise "available" is debatable).
+	c07Round++
+	garbage := false
+	if k := cs.D - len(cs.AvailD); c07Round%5 == 3 && k > 0 && len(cs.AvailP) > k && length > 0 {
+		sp := parity[cs.AvailP[k]-1]
+		sp[len(sp)/2] ^= 0x40
+		garbage = true
+	}
+	ev["garbage"] = garbage
 	inD := make([][]byte, cs.D)
 	inP := make([][]byte, cs.P)
 	keepD := map[int][]byte{}
@@ -155,7 +166,7 @@ func rsRound(lg *tracelog.Log, rng *rand.Rand, cs c07Case, length, g int, withWo
 	}
 	unchanged := true
 	for i, b := range keepD {
-		if !bytes.Equal(b, orig[i]) || (inD[i] != nil && !bytes.Equal(inD[i], b)) {
+		if !bytes.Equal(b, orig[i]) || inD[i] == nil || !bytes.Equal(inD[i], b) { // taken away from the caller counts as altered
 			unchanged = false
 		}
 	}
@@ -170,6 +181,7 @@ func rsRound(lg *tracelog.Log, rng *rand.Rand, cs c07Case, length, g int, withWo
 }
 
 var coderCache = map[string]rsec16.Coder{}
+var c07Round int
 
 type panicErr struct{ v interface{} }
 
